@@ -18,10 +18,10 @@ CHECKS = {
  "C07": dict(
    text="Lean theorems (full): len_exact_builtin (lenT t v = length of encodeT t v for the whole built-in universe; side condition SmallArity = tuples/records <= 23 "
         "components, true of every Rust type), len_exact_token (all 26 token variants, after fix 6736830), exact_buffer; derived CborLen: len_exact_derived over the derive "
-        "model with the machine-checked counterexample for the remaining known finding K3. Correspondence: `tenc` of the C01 corpus, `tokenc` of boundary/random token "
+        "model, full (every accepted schema, every well-typed value; the former K2/KD1/K3 witnesses are positive obligations). Correspondence: `tenc` of the C01 corpus, `tokenc` of boundary/random token "
         "lists and `denc` of the generated derived types (all presence combinations): reported len must equal the bytes written, and both must equal the model's.",
    design="5/C07", technique="Lean 4 proof (same induction as C01; finite case split for tokens; derive model) + differential correspondence",
-   note="K3 (array encoding, tagged nil field below the highest present index) is a recorded known finding; K2 and KD1 were repaired in /repo (d85a3d2, 36d21e9)"),
+   note="the three defects of the derived CborLen (K2, KD1, K3) were repaired in /repo (d85a3d2, 36d21e9, 0196d88) and the model follows the repaired code; no known finding remains for C07"),
  "C03": dict(
    text="Lean theorems: every Encoder method of the model writes exactly the RFC 8949 preferred serialisation (encPref) of the value it denotes, "
         "for all arguments of its Rust type (u8..u64, i8..i64, Int over [-2^64,2^64-1], type_len for all majors, bytes/str of any length, floats, "
